@@ -20,7 +20,7 @@ EXPLANATION = (
     "the request naming that field and its value derives from that request entry only. C07.3: the None/''/value decision "
     "table of the request filter is evaluated over its atomic predicates and compared with the specification, and the "
     "filter dominates every store. C07.4: for the command line, every option feeding the request yields None when "
-    "absent (argparse table). C07.5: the object dumped is the decoded one (or its re-keying), written back to the same path.")
+    "absent (argparse table), and C07.6 nothing between parse_args and the dispatch rewrites the namespace attributes those options set. C07.5: the object dumped is the decoded one (or its re-keying), written back to the same path.")
 RULE_TEXT = "one obligation per mutating statement (C07.1/.2), per filter valuation (C07.3), per edit option (C07.4), per dump (C07.5)"
 
 INFO_EDITABLE = {"comment", "source", "private"}
@@ -370,6 +370,89 @@ def cli_table(ctx):
             ctx.violated("C07.4", cmd, "option %s (action %s) yields %r when it is NOT given; only None means 'untouched', so every command-line edit writes field %r (and changes the info-hash when it is an info field)" % (
                 want_opt, row.action, absent, field), row.call)
     ctx.floor("edit request entries", 6, n)
+    namespace_integrity(ctx, parsers, {r.dest for r in p["rows"]})
+
+
+def _param_attr_writes(ctx, f, pname, seen):
+    """[(node, attribute name | None)] : writes to attributes of parameter `pname` inside package function f (and in the
+    package functions it hands the parameter to).  None = attribute name not constant."""
+    out = []
+    if f in seen:
+        return out
+    seen = seen | {f}
+    alias = {pname}
+    for n in own_nodes(f.node):
+        if isinstance(n, ast.Assign) and isinstance(n.value, ast.Name) and n.value.id in alias:
+            alias |= {t.id for t in n.targets if isinstance(t, ast.Name)}
+    for n in own_nodes(f.node):
+        if isinstance(n, (ast.Assign, ast.AugAssign, ast.AnnAssign, ast.Delete)):
+            tgts = n.targets if isinstance(n, (ast.Assign, ast.Delete)) else [n.target]
+            for t in tgts:
+                if isinstance(t, ast.Attribute) and isinstance(t.value, ast.Name) and t.value.id in alias:
+                    out.append((n, t.attr))
+                # vars(ns)[k] = v / ns.__dict__[k] = v
+                if isinstance(t, ast.Subscript):
+                    b = t.value
+                    if (isinstance(b, ast.Call) and isinstance(b.func, ast.Name) and b.func.id == "vars" and b.args and isinstance(b.args[0], ast.Name) and b.args[0].id in alias) \
+                            or (isinstance(b, ast.Attribute) and b.attr == "__dict__" and isinstance(b.value, ast.Name) and b.value.id in alias):
+                        out.append((n, const_str(t.slice)))
+        if isinstance(n, ast.Call):
+            if isinstance(n.func, ast.Name) and n.func.id in ("setattr", "delattr") and n.args and isinstance(n.args[0], ast.Name) and n.args[0].id in alias:
+                out.append((n, const_str(n.args[1]) if len(n.args) > 1 else None))
+            elif isinstance(n.func, ast.Attribute) and n.func.attr in ("update", "pop", "clear", "setdefault", "__setattr__"):
+                b = n.func.value
+                if (isinstance(b, ast.Call) and isinstance(b.func, ast.Name) and b.func.id == "vars" and b.args and isinstance(b.args[0], ast.Name) and b.args[0].id in alias) \
+                        or (isinstance(b, ast.Attribute) and b.attr == "__dict__" and isinstance(b.value, ast.Name) and b.value.id in alias) \
+                        or (n.func.attr == "__setattr__" and isinstance(b, ast.Name) and b.id in alias):
+                    out.append((n, None))
+            else:
+                for i, a in enumerate(n.args):
+                    if isinstance(a, ast.Name) and a.id in alias:
+                        for t in C.targets_of(ctx, f, n):
+                            ps = [x for x in t.params if x != t.self_name]
+                            if i < len(ps):
+                                out += _param_attr_writes(ctx, t, ps[i], seen)
+    return out
+
+
+def namespace_integrity(ctx, parsers, edit_dests):
+    """What the handler sees is what argparse produced: between parse_args and the dispatch nothing rewrites option values
+    (a rewrite that maps a given value to None turns 'remove this field' / 'set it to this' into 'leave untouched', and the
+    reverse makes an unnamed field named)."""
+    ex = parsers.fn
+    parses = [n for n in own_nodes(ex.node) if isinstance(n, ast.Call) and isinstance(n.func, ast.Attribute) and n.func.attr in ("parse_args", "parse_known_args", "parse_intermixed_args")]
+    if not parses:
+        ctx.undecided("C07.6", ex, "parse_args call not found in the command-line entry point")
+        return
+    n_checked = 0
+    for pc in parses:
+        st = ctx.prog.enclosing_stmt(pc)
+        ns = st.targets[0].id if isinstance(st, ast.Assign) and len(st.targets) == 1 and isinstance(st.targets[0], ast.Name) else None
+        writes = []
+        # wrappers around the parse call:  ns = tidy(parser.parse_args(argv))
+        par = ctx.prog.parent.get(pc)
+        while isinstance(par, ast.Call):
+            for t in C.targets_of(ctx, ex, par):
+                ps = [x for x in t.params if x != t.self_name]
+                idx = [i for i, a in enumerate(par.args) if a is pc or any(x is pc for x in ast.walk(a))]
+                if idx and idx[0] < len(ps):
+                    writes += _param_attr_writes(ctx, t, ps[idx[0]], frozenset())
+            par = ctx.prog.parent.get(par)
+        if ns is None:
+            ctx.undecided("C07.6", ex, "result of parse_args is not bound to a plain local", pc)
+            continue
+        # the dispatch:  ns.func(ns)
+        writes += [(w, a) for (w, a) in _param_attr_writes(ctx, ex, ns, frozenset())]
+        n_checked += 1
+        bad = [(w, a) for (w, a) in writes if a is None or a in edit_dests]
+        other = [(w, a) for (w, a) in writes if a is not None and a not in edit_dests]
+        for w, a in bad:
+            fq = ctx.prog.enclosing_function(w) if hasattr(ctx.prog, "enclosing_function") else None
+            ctx.violated("C07.6", ex, "the parsed namespace is rewritten before the handler runs (`%s` sets %s): the edit request no longer says what the command line said - a field given as '' (remove) or not given at all (untouched) can change meaning" % (
+                norm(w)[:80], "attribute %r" % a if a else "attributes chosen at run time"), w)
+        if not bad:
+            ctx.holds("C07.6", ex, "nothing between parse_args and the dispatch rewrites an option of the edit sub-command (%d other attribute write(s))" % len(other), pc)
+    ctx.floor("parse_args sites checked for namespace rewrites", 1, n_checked)
 
 
 MUTANTS = [
